@@ -110,6 +110,24 @@ def short (data : List UInt8) (hash1 hash2 : UInt64) : UInt64 × UInt64 :=
   let s := shortEnd (shortTail length spr.2.2 spr.1 spr.2.1)
   (s.h0, s.h1)
 
+/-- Short as SpookyV2 describes it: whole 32-byte sets, one more 16-byte half set when at
+    least 16 bytes remain, then the last 0..15 bytes *zero-padded to 16 bytes* and added as two
+    little-endian words (`sc_const` twice when nothing remains), the length in the top byte
+    of `d`. -/
+def shortSpec (data : List UInt8) (hash1 hash2 : UInt64) : UInt64 × UInt64 :=
+  let length := data.length
+  let s := shortLoop (length / 32) ⟨hash1, hash2, sc, sc⟩ data
+  let p := data.drop (32 * (length / 32))
+  let sp : S4 × List UInt8 := if p.length ≥ 16 then (shortAbsorb16 s p, p.drop 16) else (s, p)
+  let s := sp.1
+  let p := sp.2
+  let d := s.h3 + (UInt64.ofNat length <<< 56)
+  let s : S4 :=
+    if p.length = 0 then { s with h2 := s.h2 + sc, h3 := d + sc }
+    else { s with h2 := s.h2 + w64 p 0, h3 := d + w64 p 1 }
+  let s := shortEnd s
+  (s.h0, s.h1)
+
 /-! ### Long path -/
 
 structure S12 where
